@@ -2538,14 +2538,24 @@ class SSHConnection(SSHPacketHandler, asyncio.Protocol):
             return
 
         if begin_auth:
+            username = self._username
+
             # This method is only in SSHServerConnection
             # pylint: disable=no-member
             await cast(SSHServerConnection, self).reload_config()
 
-            result = cast(SSHServer, self._owner).begin_auth(self._username)
+            # A later request may have changed the user name while we were
+            # waiting. This request has been superseded in that case
+            if username != self._username:
+                return
+
+            result = cast(SSHServer, self._owner).begin_auth(username)
 
             if inspect.isawaitable(result):
                 result = await cast(Awaitable[bool], result)
+
+            if username != self._username:
+                return
 
             if not result:
                 await self.send_userauth_success()
